@@ -26,7 +26,8 @@ Notation cov_stmt := (Replace.cov_stmt tcfg).
         DELETE..USING tables, ON DUPLICATE KEY UPDATE pairs);
         (extracted, probed and pinned by C15_expected_coverage but without an object in this model: _SetOperation, the
         PostgreSQL ON CONFLICT parts, terms.Values, a term as right operand of BitwiseAndCriterion, the clickhouse helpers
-        HasAny / Length, Empty, NotEmpty / ToFixedString -- exercised by the oracle on the implementation);
+        HasAny / Length, Empty, NotEmpty / ToFixedString, and Interval operands (a Node that is not a Term) -- exercised by the
+        oracle on the implementation);
         replace = the object built with B; other tables untouched.  [wf_stmt]: dialect-only slots are empty elsewhere. *)
 Definition C15_full_statement : Prop :=
   forall A B : tref,
